@@ -1,7 +1,7 @@
 """C19 - the orchestration script resumes correctly (claimed for structural clauses only)."""
 import ast
 
-from engine.astutil import U, calls, kwargs, single_defs, inline, walk_own, call_name, attr_tail, returns, enclosing_map, names_in, arg
+from engine.astutil import norm_path, U, calls, kwargs, single_defs, inline, walk_own, call_name, attr_tail, returns, enclosing_map, names_in, arg
 from engine.cfg import CFG
 from engine.norm import Norm, Poly, parse_expr
 from engine.repo import AnalysisError, ORCH_MOD
@@ -44,7 +44,7 @@ def r1(ctx):
     ctx.need(ORCH_MOD in R.modules, "nextflow/scripts/batchie.py not found")
     n = 0
     for q, f in sorted(R.funcs.items()):
-        if f.mod != ORCH_MOD:
+        if f.mod != ORCH_MOD or q in R.absorbed:
             continue
         ctx.functions.add(q)
         for c in calls(f.node):
@@ -57,21 +57,36 @@ def r1(ctx):
                 ctx.bad("R1", site, f"destructive filesystem call `{U(c)[:70]}` outside the job-directory reset of the step functions")
                 continue
             env = single_defs(f.node)
-            tgt = inline(c.args[0], env, depth=1)
+            tgt = c.args[0]
             # scan results
             scan = [nn for nn in walk_own(f.node) if isinstance(nn, ast.Assign) and isinstance(nn.value, ast.Call) and U(nn.value.func) == SCAN.split(".")[-1]]
             ctx.need(len(scan) == 1 and isinstance(scan[0].targets[0], ast.Tuple), f"{f.site()}: scan call not found")
             I, J = [U(t) for t in scan[0].targets[0].elts[:2]]
             out = f.params[0]
             want = f"os.path.join({out},f'iter_{{{I}}}',f'plate_{{{J}}}')"
-            ctx.check("R1", site, U(tgt).replace(" ", "") == want,
+            ctx.check("R1", site, norm_path(tgt, env) == want,
                       f"deletes only join({out}, iter_<{I}>, plate_<{J}>) - the next step's directory",
-                      f"rmtree target is `{U(tgt)}`, not the directory of the next step reported by the scan: a completed step could be deleted")
+                      f"rmtree target is `{norm_path(tgt, env)}`, not the directory of the next step reported by the scan: a completed step could be deleted")
     ctx.need(n >= 2, "fewer than two destructive calls found in the orchestration script (rule would be vacuous)")
 
 
-def r2(ctx):
+def scan_fn(ctx):
+    """the scan function with tuple-valued records split into scalar locals and tail copies propagated, so that a record kept as
+    one tuple (`last = (i, p, dir, meta)`) and a record kept in separate variables are analysed alike"""
+    import copy as _copy
+    from engine.inliner import scalarise_tuple_records, propagate_tail_copies
     f = ctx.fn(SCAN)
+    node, done = scalarise_tuple_records(f.node)
+    if not done:
+        return f
+    node = propagate_tail_copies(node)
+    g = _copy.copy(f)
+    g.node = node
+    return g
+
+
+def r2(ctx):
+    f = scan_fn(ctx)
     g = CFG(f.node)
     rets = returns(f.node)
     final = [r for r in rets if isinstance(r.value, ast.Tuple) and len(r.value.elts) == 4 and not all(isinstance(e, ast.Constant) for e in r.value.elts)]
@@ -86,7 +101,7 @@ def r2(ctx):
     arith_names = set()
     for n in walk_own(f.node):
         if isinstance(n, ast.If) and any(isinstance(x, ast.Assign) and U(x.targets[0]) in (U(final.value.elts[0]), U(final.value.elts[1])) for x in n.body):
-            arith_names |= names_in(n.test)
+            arith_names |= names_in(inline(n.test, {k: v for k, v in env.items() if isinstance(v, (ast.Compare, ast.BoolOp, ast.UnaryOp))}))
             for x in n.body + n.orelse:
                 if isinstance(x, ast.Assign):
                     arith_names |= names_in(x.value)
@@ -137,7 +152,12 @@ def r2(ctx):
     # the directory whose screen is returned must be the loop variable of the loop holding the commit block, and every
     # iteration must reach the commit block or raise (no break/continue that leaves the loop variable ahead of the record)
     body, lo, hi, inner = commit_blocks[0]
-    ok_dir = U(inner.target.elts[1]) == dirvar if isinstance(inner.target, ast.Tuple) else U(inner.target) == dirvar
+    loopvar = U(inner.target.elts[1]) if isinstance(inner.target, ast.Tuple) else U(inner.target)
+    ok_dir = loopvar == dirvar
+    if not ok_dir:
+        # the directory is itself part of the record: committed in the same block from the loop variable
+        ok_dir = any(isinstance(s_, ast.Assign) and U(s_.targets[0]) == dirvar and U(s_.value) == loopvar for s_ in body[lo:hi + 1]) \
+            and len([n for n in walk_own(f.node) if isinstance(n, ast.Assign) and U(n.targets[0]) == dirvar and not (isinstance(n.value, ast.Constant) and n.value.value is None)]) == 1
     ctx.check("R2", f"{f.site()}::screen-directory-is-committed-directory", ok_dir,
               f"the screen is read from `{dirvar}`, the loop variable of the loop that commits the record",
               f"the returned screen comes from `{dirvar}` which is not the directory variable of the committing loop")
@@ -154,14 +174,16 @@ def r2(ctx):
 
 
 def r3(ctx):
-    f = ctx.fn(SCAN)
+    f = scan_fn(ctx)
     final = [r for r in returns(f.node) if isinstance(r.value, ast.Tuple) and len(r.value.elts) == 4 and not all(isinstance(e, ast.Constant) for e in r.value.elts)][0]
     ni, np_ = U(final.value.elts[0]), U(final.value.elts[1])
     iff = [n for n in walk_own(f.node) if isinstance(n, ast.If) and any(isinstance(x, ast.Assign) and U(x.targets[0]) == ni for x in n.body)]
     ctx.need(len(iff) == 1, f"{f.site()}: successor arithmetic not found")
     iff = iff[0]
     N = Norm(strict=False)
-    names = sorted(names_in(iff.test) - {"batch_size"})
+    tenv = {k: v for k, v in single_defs(f.node).items() if isinstance(v, (ast.Compare, ast.BoolOp, ast.UnaryOp))}
+    test = inline(iff.test, tenv)
+    names = sorted(names_in(test) - {"batch_size"})
     ctx.need(len(names) == 1, f"{f.site()}: successor test reads {names}")
     p = names[0]
     then = {U(x.targets[0]): x.value for x in iff.body if isinstance(x, ast.Assign)}
@@ -169,28 +191,37 @@ def r3(ctx):
     it_names = sorted((names_in(then.get(ni, ast.Constant(0))) | names_in(els.get(ni, ast.Constant(0)))))
     ctx.need(len(it_names) == 1, f"{f.site()}: iteration variable not identified")
     i = it_names[0]
-    cond_ok = N.b(iff.test, integer=True) == N.b(parse_expr(f"{p} + 1 >= batch_size"), integer=True)
+    cond_ok = N.b(test, integer=True) == N.b(parse_expr(f"{p} + 1 >= batch_size"), integer=True)
     wrap_ok = ni in then and np_ in then and N.n(then[ni]) == N.n(parse_expr(f"{i} + 1")) and N.n(then[np_]) == N.n(parse_expr("0"))
     step_ok = ni in els and np_ in els and N.n(els[ni]) == N.n(parse_expr(i)) and N.n(els[np_]) == N.n(parse_expr(f"{p} + 1"))
     ctx.check("R3", f"{f.site()}::lexicographic-successor", cond_ok and wrap_ok and step_ok,
               "next = (i + 1, 0) if p + 1 >= batch_size else (i, p + 1)",
               f"next-step arithmetic is not the lexicographic successor with plate < batch_size "
-              f"(test `{U(iff.test)}`, then {{{', '.join(k + '=' + U(v) for k, v in then.items())}}}, else {{{', '.join(k + '=' + U(v) for k, v in els.items())}}})")
+              f"(test `{U(test)}`, then {{{', '.join(k + '=' + U(v) for k, v in then.items())}}}, else {{{', '.join(k + '=' + U(v) for k, v in els.items())}}})")
 
 
 def r4(ctx):
-    f = ctx.fn(SCAN)
+    f = scan_fn(ctx)
     final = [r for r in returns(f.node) if isinstance(r.value, ast.Tuple) and len(r.value.elts) == 4 and not all(isinstance(e, ast.Constant) for e in r.value.elts)][0]
     meta = U(final.value.elts[2])
     g = CFG(f.node)
-    mdefs = [n for n in walk_own(f.node) if isinstance(n, ast.Assign) and U(n.targets[0]) == meta and isinstance(n.value, ast.Call)]
+    mdefs = [n for n in walk_own(f.node) if isinstance(n, ast.Assign) and U(n.targets[0]) == meta and not (isinstance(n.value, ast.Constant) and n.value.value is None)]
     ctx.need(len(mdefs) == 1, f"{f.site()}: metadata assignment not found")
-    reader = U(mdefs[0].value.func)
-    d = U(mdefs[0].value.args[0])
+    mval = mdefs[0].value
+    via = None
+    if isinstance(mval, ast.Name):
+        # committed from a local that holds the reader's result: `m = reader(d) ... if m is None: raise ... meta = m`
+        src = [n for n in walk_own(f.node) if isinstance(n, ast.Assign) and U(n.targets[0]) == mval.id]
+        ctx.need(len(src) == 1 and isinstance(src[0].value, ast.Call), f"{f.site()}: `{meta}` is committed from `{mval.id}`, whose definition is not one reader call")
+        via = mval.id
+        mval = src[0].value
+    ctx.need(isinstance(mval, ast.Call) and mval.args, f"{f.site()}: metadata is not the result of a reader call")
+    reader = U(mval.func)
+    d = U(mval.args[0])
     guard = None
     for t, arm in g.raising_guards():
         tt = U(t.stmt.test).replace(" ", "")
-        if tt == f"{reader}({d})isNone" and arm == "then":
+        if arm == "then" and (tt == f"{reader}({d})isNone" or (via is not None and tt == f"{via}isNone")):
             guard = t
     dom = g.dominators()
     mnode = g.nodes_of(mdefs[0])[0]
@@ -224,15 +255,15 @@ def r5(ctx):
         ctx.check("R5", f"{f.site()}::subsequent-plate-screen", U(kw.get("screen")) == want_screen,
                   f"a later plate of the batch starts from `{want_screen}`" + (" (output of the immediately preceding step)" if retro else ""),
                   f"a later plate of the batch is started from `{U(kw.get('screen'))}` instead of `{want_screen}`: intermediate reveals are lost from the screen lineage")
-        th = inline(kw.get("thetas"), env, depth=2) if "thetas" in kw else None
-        src = U(th).replace(" ", "") if th is not None else ""
+        th = kw.get("thetas")
+        src = norm_path(th, env) if th is not None else ""
         ok = f"get_theta_and_dist_chunks(os.path.join({out},f'iter_{{{I}}}','plate_0'))['thetas']" == src
         ctx.check("R5", f"{f.site()}::model-files-of-same-iteration", ok, f"thetas / distance chunks come from iter_<{I}>/plate_0",
-                  f"model files are taken from `{U(th)}`, not from plate_0 of the current iteration")
-        ex = inline(kw.get("excludes"), env, depth=1) if "excludes" in kw else None
-        ok = ex is not None and U(ex).replace(" ", "") == f"get_selected_plates(os.path.join({out},f'iter_{{{I}}}'))"
+                  f"model files are taken from `{src}`, not from plate_0 of the current iteration")
+        ex = kw.get("excludes")
+        ok = ex is not None and norm_path(ex, env) == f"get_selected_plates(os.path.join({out},f'iter_{{{I}}}'))"
         ctx.check("R5", f"{f.site()}::excludes-of-same-iteration", ok, "already selected plates are read from the current iteration directory",
-                  f"exclusions are `{U(ex)}`, not the selected plates of the current iteration")
+                  f"exclusions are `{norm_path(ex, env) if ex is not None else None}`, not the selected plates of the current iteration")
         if retro:
             fb = [c for c in calls(f.node) if U(c.func) == "run_first_batch_plate"]
             ctx.need(len(fb) == 1, f"{f.site()}: run_first_batch_plate call not found")
@@ -240,7 +271,7 @@ def r5(ctx):
                       f"the first plate of an iteration trains on `{S}` (output of the previous iteration's last step)",
                       f"the first plate of an iteration trains on `{U(kwargs(fb[0]).get('training_screen'))}`")
         jd = [c for c in calls(f.node) if U(c.func).startswith("run_") and "output_dir" in kwargs(c)]
-        ok = all(U(inline(kwargs(c)["output_dir"], env, depth=1)).replace(" ", "") == f"os.path.join({out},f'iter_{{{I}}}',f'plate_{{{J}}}')" for c in jd) and jd
+        ok = all(norm_path(kwargs(c)["output_dir"], env) == f"os.path.join({out},f'iter_{{{I}}}',f'plate_{{{J}}}')" for c in jd) and jd
         ctx.check("R5", f"{f.site()}::output-dir-is-next-step", ok, "every launch writes to iter_<I>/plate_<J> of the next step",
                   "a launch writes to a directory other than the next step's")
 
